@@ -123,6 +123,9 @@ package keeper
 // coin of it is within the caller's fee limit (a denom missing from the limit counts as 0).
 //@ func (k Keeper) createSigningRequest
 //@ modifies Store_bandtss, Bank, Other
+// a bandtss signing is recorded - and reported to the caller as created - only when at least one tss signing really was
+// created (for the current or for the incoming group); a failed optional request for the incoming group alone is not one
+//@ assert before bandtssSigningID: currentGroupSigningID != 0 || incomingGroupSigningID != 0
 //@ ensures err == nil && addrstr(sender) != k.authority && old(curGroup(Store_bandtss)) != 0 ==>
 //@     (forall i :: 0 <= i && i < len(old(signFee(Store_bandtss, Other))) ==>
 //@         old(signFee(Store_bandtss, Other))[i].Amount <= ext("Coins.AmountOf", feeLimit, old(signFee(Store_bandtss, Other))[i].Denom))
